@@ -321,3 +321,23 @@ def ml_return_body(m, c):
         return ml_single_return(ml_invocation(m, c), m.return_type.type1, c)
     return ('  auto pairResult = ' + ml_invocation(m, c) + ';\n'
             + ml_pair_member(m.return_type.type1, 0) + ml_pair_second(m.return_type.type2))
+
+
+@spec(rec=True, ret='str', reads='tree')
+def ml_args_decl(args, k):
+    """`type name, type name, ...` for the first k parameters (comment line of a MATLAB method)"""
+    if k <= 0:
+        return ''
+    return (ml_args_decl(args, k - 1) + ml_type_name(args[k - 1].ctype.typename, '::', False, False, False) + ' ' + args[k - 1].name
+            + ('' if k == len(args) else ', '))
+
+
+@spec()
+def ml_return_spelling(r, incl, sep):
+    return (ml_type_name(r.type1.typename, sep, incl, False, False) if r.type2 == ''
+            else 'pair< ' + ml_type_name(r.type1.typename, sep, incl, False, False) + ', ' + ml_pair_second_name(r.type2, sep, incl) + ' >')
+
+
+@spec()
+def ml_pair_second_name(t2, sep, incl):
+    return ml_type_name(t2.typename, sep, incl, False, False) if isinstance(t2, Type) else ''
